@@ -637,6 +637,84 @@ def sec_apply(rec, n=3, k=3, group=False, patches=None):
             rec.fact(f"{tag}/cell(i,j)=f_j(subtomogram of molecule i)", good, key="C03/apply/row-order", detail={"bad_cells": [c[:3] for c in cells if not c[3]][:6], **det}, reproduced=okr)
 
 
+def replay_readd(cex):
+    """installed library: molecules added to tomogram 0 in two portions (interleaved image ids) plus a tomogram without molecules; groupby on a table that has a '.index' feature"""
+    with load.real_modules():
+        from acryo import BatchLoader, SubtomogramLoader, Molecules
+
+        bad = {}
+        imgs = [np.full((12, 12, 12), 10.0 * (k + 1), dtype=np.float32) for k in range(3)]
+        bl = BatchLoader(order=0, scale=1.0, output_shape=(3, 3, 3))
+        bl.add_tomogram(imgs[0], Molecules(np.full((2, 3), 6.0)), image_id=0)
+        bl.add_tomogram(imgs[1], Molecules(np.full((2, 3), 6.0)), image_id=1)
+        bl.add_tomogram(imgs[0], Molecules(np.full((2, 3), 5.0)), image_id=0)
+        bl.add_tomogram(imgs[2], Molecules(np.zeros((0, 3))), image_id=2)
+        ids = bl.molecules.features["image-id"].to_list()
+        got = [int(round(float(x.mean()) / 10.0)) - 1 for x in bl.construct_dask().compute()]
+        if got != ids:
+            bad["interleaved ids + empty tomogram"] = {"image_ids": ids, "tomogram_loaded_for_row": got}
+        tomo = np.random.default_rng(0).normal(size=(16, 16, 16)).astype(np.float32)
+        m = Molecules(np.full((6, 3), 8.0), features={"cls": [0, 1, 0, 2, 1, 2], ".index": [7, 7, 8, 8, 9, 9]})
+        ld = SubtomogramLoader(tomo, m, order=0, output_shape=(3, 3, 3))
+        for by, want in (("cls", {0: 2, 1: 2, 2: 2}), (".index", {7: 2, 8: 2, 9: 2})):
+            g = {k: sub for k, sub in ld.groupby(by)}
+            counts = {k: len(v.molecules) for k, v in g.items()}
+            cols = {k: sorted(v.molecules.features.columns) for k, v in g.items()}
+            if counts != want or any(c != ["%s" % x for x in sorted([".index", "cls"])] for c in cols.values()):
+                bad[f"groupby({by!r}) with a '.index' feature"] = {"counts": {str(k): v for k, v in counts.items()}, "columns": {str(k): v for k, v in cols.items()}}
+        return len(bad) > 0, {"problems": bad}
+
+
+def sec_readd(rec, patches=None):
+    """(a) molecules registered for tomogram 0 in two portions (image ids 0,0,1,1,0,0) and a tomogram without molecules: row i is still cut from its tomogram;
+    (b) groupby on molecules that carry a feature named like the loader's temporary row-index column ('.index'): groups partition by the requested key and keep every feature"""
+    L = _load(patches)
+    BT, MC, LD = L["acryo.loader._batch"], L["acryo.molecules.core"], L["acryo.loader._loader"]
+    xp = L.xp
+    rec.encodes("acryo/loader/_batch.py:BatchLoader.add_tomogram (same id twice, empty tomogram)", "acryo/loader/_batch.py:BatchLoader.construct_loading_tasks", "acryo/loader/_group.py:LoaderGroupByIterator.__iter__ ('.index' column)")
+    tags = ["a0", "a1", "b0", "b1", "c0", "c1"]
+    hyps = _hyps(tags)
+    with L.installed():
+        def run():
+            bl = BT.BatchLoader(order=1, scale=1, output_shape=SHAPE)
+            img0 = stubs.ImgStub((200, 200, 200), root="tomo0")
+            bl.add_tomogram(img0, _molecules(MC, ["a0", "a1"]), image_id=0)
+            bl.add_tomogram(stubs.ImgStub((200, 200, 200), root="tomo1"), _molecules(MC, ["b0", "b1"]), image_id=1)
+            bl.add_tomogram(img0, _molecules(MC, ["c0", "c1"]), image_id=0)
+            bl.add_tomogram(stubs.ImgStub((200, 200, 200), root="tomo2"), MC.Molecules.empty(["row"]), image_id=2)
+            return bl, _collect(bl, xp)
+
+        for pth in explore(run, assumptions=hyps, max_paths=20, max_depth=3000):
+            if not pth.ok:
+                ok, det = replay_readd({})
+                rec.fact("readd/runs", False, key="C03/batch/raises", detail={"exc": repr(pth.exc)[:300], **det}, reproduced=ok)
+                continue
+            bl, col = pth.result
+            rows = bl.molecules.features["row"].to_list()
+            ids = bl.molecules.features["image-id"].to_list()
+            rec.fact("readd/table", rows == tags and ids == [0, 0, 1, 1, 0, 0] and len(bl.images) == 3, key="C03/batch/table", detail={"rows": rows, "ids": ids, "images": len(bl.images)}, reproduced=None)
+            _check_tasks(rec, "readd", col, hyps, pth.condition(), tags, ["tomo0", "tomo0", "tomo1", "tomo1", "tomo0", "tomo0"], "C03/batch", replay=replay_readd)
+
+        def run2():
+            ld = _single_loader(L, xp, ["m0", "m1", "m2", "m3"], {"cls": [0, 1, 0, 1], ".index": [7, 8, 8, 7]})
+            out = {}
+            for by in ("cls", ".index"):
+                out[by] = [(k, sub.molecules.features.columns, sub.molecules.features["row"].to_list()) for k, sub in ld.groupby(by)]
+            return out
+
+        for pth in explore(run2, assumptions=_hyps(["m0", "m1", "m2", "m3"]), max_paths=10):
+            if not pth.ok:
+                ok, det = replay_readd({})
+                rec.fact("groupby-index-column/runs", False, key="C03/group/raises", detail={"exc": repr(pth.exc)[:300], **det}, reproduced=ok)
+                continue
+            want = {"cls": {0: ["m0", "m2"], 1: ["m1", "m3"]}, ".index": {7: ["m0", "m3"], 8: ["m1", "m2"]}}
+            for by, groups in pth.result.items():
+                got = {k: r for k, _, r in groups}
+                okg = got == want[by] and all(sorted(c) == sorted(["row", "cls", ".index"]) for _, c, _ in groups)
+                okr, det = (True, {}) if okg else replay_readd({})
+                rec.fact(f"groupby-index-column/groupby({by!r}): partition by the key, every feature kept", okg, key="C03/group/index-column-collision", detail={"groups": {str(k): r for k, r in got.items()}, "columns": [c for _, c, _ in groups][:2], **det}, reproduced=okr)
+
+
 def sec_batch_binning(rec, patches=None):
     """after BatchLoader.binning(compute=True) of a batch mixing in-memory and dask tomograms, every molecule still reads the (binned) image of its own tomogram (executed by C15's section)"""
     from .c15 import sec_region_batch
@@ -654,7 +732,7 @@ def _apply_sections():
 
 
 def sections(tier):
-    S = [("batch-binning-mixed", "checks.c03", "sec_batch_binning", {}), ("single", "checks.c03", "sec_single", {}), ("batch-ops", "checks.c03", "sec_batch_ops", {}), ("group", "checks.c03", "sec_group", {}), ("writeback", "checks.c03", "sec_writeback", {})]
+    S = [("batch-binning-mixed", "checks.c03", "sec_batch_binning", {}), ("single", "checks.c03", "sec_single", {}), ("batch-ops", "checks.c03", "sec_batch_ops", {}), ("group", "checks.c03", "sec_group", {}), ("writeback", "checks.c03", "sec_writeback", {}), ("readd-and-index-column", "checks.c03", "sec_readd", {})]
     seqs = [(0, 1, 0, 1), (1, 0), (0, 0, 1), (1, 0, 0), (0, 1, 1, 0)] if quick(tier) else [s for n in (2, 3, 4) for s in itertools.product((0, 1), repeat=n) if len(set(s)) == 2] + [(0, 1, 2, 0), (2, 0, 1, 0), (1, 2, 0, 1)]
     for s in seqs:
         S.append((f"batch-{''.join(map(str, s))}", "checks.c03", "sec_batch", {"ids": s}))
@@ -698,7 +776,7 @@ def run(tier, procs=None, only=None):
 
 
 # every real-library oracle of this property (each returns (reproduced, detail)); used to confirm structural facts that carry no replay of their own
-ALL_REPLAYS = [lambda c: replay_batch_order([0, 1, 0, 1])(c), lambda c: replay_batch_order([1, 0])(c), replay_alias_batch, replay_autoid, lambda c: replay_group_twice('head')(c), lambda c: replay_group_twice('filter')(c), replay_apply]
+ALL_REPLAYS = [lambda c: replay_batch_order([0, 1, 0, 1])(c), lambda c: replay_batch_order([1, 0])(c), replay_alias_batch, replay_autoid, replay_readd, lambda c: replay_group_twice('head')(c), lambda c: replay_group_twice('filter')(c), replay_apply]
 
 
 def replay(data):
